@@ -47,6 +47,11 @@ pub struct Cfg {
     pub ops: u8,
     /// poll the subject once more after its final result (it may panic or answer anything, but must not poll a child)
     pub probe: bool,
+    /// scripted streams report size hints: (0 or the exact count, Some(items they can still produce)); off: (0, None)
+    pub hints: bool,
+    /// budget: a leaf that is dropped inside a combinator's poll invokes the current waker of a pending sibling from its
+    /// destructor ("dropping the sender notifies the receiver")
+    pub dropwake: u8,
 }
 
 impl Cfg {
@@ -66,6 +71,8 @@ impl Cfg {
             max_items: 0,
             ops: 0,
             probe: false,
+            hints: true,
+            dropwake: 0,
         }
     }
 }
@@ -247,6 +254,7 @@ pub struct World {
     pub stale_left: u8,
     pub spurious_left: u8,
     pub inpoll_left: u8,
+    pub dropwake_left: u8,
     pub drops_left: u8,
     pub panics_left: u8,
     pub ops_left: u8,
@@ -324,6 +332,7 @@ impl World {
             stale_left: 0,
             spurious_left: 0,
             inpoll_left: 0,
+            dropwake_left: 0,
             drops_left: 0,
             panics_left: 0,
             ops_left: 0,
@@ -356,6 +365,7 @@ impl World {
         self.stale_left = cfg.stale;
         self.spurious_left = cfg.spurious;
         self.inpoll_left = cfg.inpoll;
+        self.dropwake_left = cfg.dropwake;
         self.drops_left = cfg.drops;
         self.panics_left = cfg.panics;
         self.ops_left = cfg.ops;
@@ -762,6 +772,31 @@ impl World {
     #[inline]
     pub fn dev_ok(&self) -> bool {
         self.ch.devs < self.cfg.dev
+    }
+
+    /// A leaf is being dropped: may its destructor wake a pending sibling? Only inside a combinator's poll (that is
+    /// where a combinator could still hold a lock), only siblings that are live and Pending.
+    pub fn dropwake_decide(&mut self, me: u32) -> Option<(u32, Waker)> {
+        if self.dropwake_left == 0 || self.stack.is_empty() || !self.dev_ok() {
+            return None;
+        }
+        let mut cands = Vec::new();
+        for (cid, r) in self.children.iter().enumerate() {
+            if cid as u32 == me || r.is_inner || r.cur == NONE || r.spec.never || r.finished || r.removed || r.in_poll || r.last != Ans::Pending {
+                continue;
+            }
+            cands.push(r.cur);
+        }
+        if cands.is_empty() {
+            return None;
+        }
+        let c = self.choose(cands.len() + 1);
+        if c == 0 {
+            return None;
+        }
+        self.dropwake_left -= 1;
+        let wid = cands[c - 1];
+        Some((wid, self.wakers[wid as usize].waker.clone()))
     }
 
     fn inpoll_candidates(&self, me: u32) -> Vec<u32> {
